@@ -1817,6 +1817,7 @@ class Model:
         self._surrogates[name] = surrogate
         return self
 
+    @_invalidate_cache
     def update_surrogate(
         self,
         name: str,
@@ -1865,6 +1866,7 @@ class Model:
         self._surrogates[name] = surrogate
         return self
 
+    @_invalidate_cache
     def remove_surrogate(self, name: str) -> Self:
         """Remove a surrogate model from the model.
 
@@ -1930,11 +1932,13 @@ class Model:
         self._data[name] = data
         return self
 
+    @_invalidate_cache
     def update_data(self, name: str, data: pd.Series | pd.DataFrame) -> Self:
         """Update named data set."""
         self._data[name] = data
         return self
 
+    @_invalidate_cache
     def remove_data(self, name: str) -> Self:
         """Remove data set from model."""
         self._remove_id(name=name)
